@@ -26,24 +26,19 @@ def request(idv, off, mode="ok"):
     return bytes([0x04, 0x0c, len(body)]) + body
 
 
-def check(run):
-    proof_part(run, "C11")
+def build_cases(rng, th, scratch, ndirs, per_dir):
+    """upload histories over real files in `scratch`: (implementation cases, model cases, expected traces, descriptions)"""
     L = layouts.load()
     SP = spec.layouts()
-    rng, th = run.rng, run.tier == "thorough"
-    drv = vlib.ocaml_build()
-    seqb = vlib.harness_build("harness", ["seq"])["seq"]
     paths = L["upload_paths"]                      # regenerated [path, id]
     wd_spec = SP["zvt::feig::packets::WriteData"]
-    rq_gen = {s["name"]: s for s in L["structs"]}["zvt::feig::packets::RequestForData"]
-    scratch = "/tmp/zvt_verif_c11_%d" % os.getpid()
-    shutil.rmtree(scratch, ignore_errors=True)
-    os.makedirs(scratch)
     icases, mcases, expect, why = [], [], [], []
-    try:
-        ndirs = 60 if th else 14
+    if True:
         for d in range(ndirs):
-            block = rng.choice([1, 2, 255, 1024, 32768] if d else [1024])
+            # block sizes: small, large, and those that put one of the three nested TLV lengths of the answer (payload 1C, file 2D,
+            # container 06) on the 127/128 and 255/256 form switches (round-4 seeded change)
+            blocks = [1024, 1, 115, 117, 128, 255, 2, 114, 116, 118, 127, 129, 243, 245, 256, 32768, 242, 244, 246, 113]
+            block = blocks[d % len(blocks)] if d < len(blocks) else rng.choice(blocks)
             root = os.path.join(scratch, "d%d" % d)
             os.makedirs(root)
             chosen = rng.sample(paths, rng.choice([0, 1, 1, 2, 3, 5, len(paths)]) if d else 2)
@@ -63,7 +58,7 @@ def check(run):
                 open(fp, "wb").write(b"unrelated")
             ids = sorted(files)
             unknown = [i for i in range(256) if i not in files]
-            for _ in range(80 if th else 30):
+            for _ in range(per_dir):
                 pw = rng.choice([0, 123456, 999999])
                 steps, fault = [], None
                 for _ in range(rng.randrange(0, 7)):
@@ -110,6 +105,22 @@ def check(run):
                 icases.append("upload\t%s\t%d\t%d\t%s" % (root, block, pw, script.hex()))
                 mcases.append("uploadm\t%s\t%d\t%d\t%s" % (",".join("%d:%s" % (i, files[i].hex() or "-") for i in ids) or "-", block, pw, script.hex()))
                 expect.append(exp); why.append("block %d, files %s, requests %s, %s" % (block, [(i, len(files[i])) for i in ids], steps, fault or end))
+    return icases, mcases, expect, why
+
+
+def check(run):
+    proof_part(run, "C11")
+    L = layouts.load()
+    rng, th = run.rng, run.tier == "thorough"
+    drv = vlib.ocaml_build()
+    seqb = vlib.harness_build("harness", ["seq"])["seq"]
+    paths = L["upload_paths"]
+    scratch = "/tmp/zvt_verif_c11_%d" % os.getpid()
+    shutil.rmtree(scratch, ignore_errors=True)
+    os.makedirs(scratch)
+    try:
+        ndirs = 60 if th else 20
+        icases, mcases, expect, why = build_cases(rng, th, scratch, ndirs, 80 if th else 30)
         try:
             mo = vlib.run_sharded(drv, mcases, run.workdir, "c11_model")
             io = vlib.run_sharded(seqb, icases, run.workdir, "c11_impl")
@@ -125,7 +136,7 @@ def check(run):
         if i != e:
             n_bad += 1
             if n_bad <= 5:
-                run.violation(kind="history", case=mc[:4000000], expected=e[:2500], observed=i[:2500], how_found="oracle",
+                run.violation(kind="history", case=mc[:4000000], expected=e[:400000], observed=i[:400000], how_found="oracle",
                               detail="upload: " + w + " — announced list = recognised files present with true sizes; each request answered with that id, that offset and "
                                      "exactly the file's bytes up to the block size or end of file; unknown id / missing field ends with an error and no data")
         else:
@@ -171,6 +182,7 @@ def replay(path):
         shutil.rmtree(scratch, ignore_errors=True)
     print("expected:", r["expected"][:1500])
     print("observed:", obs[:1500])
-    ok = obs == r["expected"]
+    exp = r["expected"]
+    ok = obs == exp or (len(exp) >= 400000 and obs.startswith(exp))    # the recorded expectation may be cut at its length limit
     print("NOT REPRODUCED (implementation now meets the expectation)" if ok else "REPRODUCED")
     return 0 if ok else 1
